@@ -185,6 +185,20 @@ func c04Oracle(sp *Spec, x *X, res *mcrt.Result) (string, string) {
 			}
 			seen[b] = true
 		}
+		if sp.Refresh == "manual" {
+			// exact frames: a bar drawn finished is popped in the third frame that shows it finished; if that many
+			// frames followed and it never was, it is lost
+			nframes := len(writes)
+			for b, bs := range sp.Bars {
+				hasSucc := false
+				for _, o := range sp.Bars {
+					hasSucc = hasSucc || o.After == b+1
+				}
+				if fb, ok := first[b]; ok && !bs.NoPop && bs.After == 0 && !hasSucc && !seen[b] && nframes-fb > 3 {
+					return "not-popped", fmt.Sprintf("bar %d was first drawn finished in frame %d of %d and never drawn popped", b, fb, nframes)
+				}
+			}
+		}
 		if sp.Refresh == "auto" {
 			for b, bs := range sp.Bars {
 				if _, _, ok := addRet(x, b); ok && !bs.NoPop && bs.After == 0 && !seen[b] {
@@ -446,6 +460,25 @@ func c18Programs(tier string) []*Spec {
 			ops = append(ops, Op{K: "refresh"}, Op{K: "refresh"}, Op{K: "refresh"}, Op{K: "refresh"})
 		}
 		sp.Clients = [][]Op{ops}
+		out = append(out, sp)
+	}
+	// non-terminal output: the frame height is the container width; the frame that pops bar 0 is exactly that tall
+	// (ten bars, three extender rows, width 13)
+	{
+		sp := &Spec{Name: "c18-frame-as-tall-as-width", Refresh: "manual", Q: -1, Pop: true, Width: 13}
+		for i := 0; i < 10; i++ {
+			bs := BarSpec{Total: 1}
+			if i >= 7 {
+				bs.ExtRows = 1
+			}
+			sp.Bars = append(sp.Bars, bs)
+			sp.Main = append(sp.Main, Op{K: "add", B: i})
+		}
+		sp.Main = append(sp.Main, Op{K: "refresh"}, Op{K: "incr", B: 0, N: 1}, Op{K: "refresh"}, Op{K: "refresh"}, Op{K: "refresh"}, Op{K: "refresh"})
+		for i := 1; i < 10; i++ {
+			sp.Main = append(sp.Main, Op{K: "incr", B: i, N: 1})
+		}
+		sp.Main = append(sp.Main, Op{K: "refresh"}, Op{K: "refresh"}, Op{K: "refresh"}, Op{K: "refresh"})
 		out = append(out, sp)
 	}
 	// a render delay that ends after a bar has finished
